@@ -97,8 +97,48 @@ fn call_helper(req: &json::JsonValue) -> json::JsonValue {
     match r { Err(p) => json::object! { "status": "panic", "msg": pmsg(p) }, Ok(v) => json::object! { "status": "ok", "value": format!("{}", v) } }
 }
 
+// constructive API histories that exhibit the C10 findings through the public API
+fn history(req: &json::JsonValue) -> json::JsonValue {
+    let kind = req["kind"].as_str().unwrap_or("").to_string();
+    let p1: &'static [u8] = &[0xb7, 0, 0, 0, 1, 0, 0, 0, 0x95, 0, 0, 0, 0, 0, 0, 0];       // mov r0, 1; exit
+    let p2: &'static [u8] = &[0xb7, 0, 0, 0, 2, 0, 0, 0, 0x95, 0, 0, 0, 0, 0, 0, 0];       // mov r0, 2; exit
+    let bad: &'static [u8] = &[0xb7, 0, 0, 0, 2, 0, 0, 0];                                  // no exit: rejected
+    let r = panic::catch_unwind(|| -> (bool, String) {
+        match kind.as_str() {
+            "stale-jit-code-kept" => {
+                let mut vm = rbpf::EbpfVmNoData::new(Some(p1)).unwrap(); vm.jit_compile().unwrap();
+                vm.set_program(p2).unwrap();
+                let i = vm.execute_program().unwrap();
+                match unsafe { vm.execute_program_jit() } { Ok(j) => (j != i, format!("after set_program: interpreter returns {i}, execute_program_jit returns {j}")), Err(e) => (false, format!("execute_program_jit: {e} (no stale code)")) }
+            }
+            #[cfg(feature = "cranelift")]
+            "stale-cranelift-code-kept" => {
+                let mut vm = rbpf::EbpfVmNoData::new(Some(p1)).unwrap(); vm.cranelift_compile().unwrap();
+                vm.set_program(p2).unwrap();
+                let i = vm.execute_program().unwrap();
+                match vm.execute_program_cranelift() { Ok(j) => (j != i, format!("after set_program: interpreter returns {i}, execute_program_cranelift returns {j}")), Err(e) => (false, format!("execute_program_cranelift: {e} (no stale code)")) }
+            }
+            "error-leaves-state-changed" => {
+                // probe reads 8 bytes at offset 100 of the internal buffer: out of bounds while the buffer has 32 bytes
+                let probe: &'static [u8] = &[0x79, 0x10, 100, 0, 0, 0, 0, 0, 0x95, 0, 0, 0, 0, 0, 0, 0];
+                let mut vm = rbpf::EbpfVmFixedMbuff::new(Some(probe), 8, 24).unwrap();
+                let mem: &'static mut [u8] = Box::leak(vec![0u8; 16].into_boxed_slice());
+                let mem2: &'static mut [u8] = Box::leak(vec![0u8; 16].into_boxed_slice());
+                let before = vm.execute_program(mem).is_ok();
+                let e = vm.set_program(bad, 100, 200).is_err();
+                let after = vm.execute_program(mem2).is_ok();
+                (e && before != after, format!("failing set_program (Err: {e}); probe run before: ok={before}, after: ok={after}"))
+            }
+            _ => (false, "unsupported".into()),
+        }
+    });
+    match r { Err(p) => json::object! { "status": "panic", "detail": pmsg(p), "reproduced": true },
+              Ok((rep, d)) => if d == "unsupported" { json::object! { "status": "unsupported" } } else { json::object! { "status": "ok", "reproduced": rep, "detail": d } } }
+}
+
 pub fn dispatch(op: &str, req: &json::JsonValue) -> json::JsonValue {
     match op {
+        "history" => history(req),
         "call_helper" => call_helper(req),
         "load" => load(req),
         "compile" => compile(req),
